@@ -1,14 +1,33 @@
 #!/usr/bin/env python3
-"""Print the markdown table of /verif/seeded for DESIGN.md section 13.6."""
-import json, glob, os
+"""Regenerate the table of /verif/seeded in DESIGN.md (between the seeded-table markers)."""
+import json, glob, re
 rows = []
+tot = own = anyc = 0
 for d in sorted(glob.glob('/verif/seeded/*')):
     m = json.load(open(d + '/meta.json'))
-    runs = ', '.join(f"{c}: {'caught' if 'VIOLATION' in r else 'not caught'}" for c, r in m['checks_run'].items())
-    orc = '; '.join(f"{p}: {'/'.join(sorted(set(o)))}" for p, o in m.get('oracles_that_fired', {}).items())
-    s = m['summary'].replace('|', '/').replace('\n', ' ')
-    if len(s) > 230: s = s[:227] + '...'
-    rows.append(f"| {m['id']} | {m['breaks_property']} | {s} | {runs} | {orc} |")
-print('| id | breaks | change (author: sub-agent) | checks run on it | oracles that fired |')
-print('|----|--------|----------------------------|------------------|--------------------|')
-print('\n'.join(rows))
+    tot += 1
+    p = m['breaks_property']
+    if p in m['caught_by']: own += 1
+    if m['caught_by']: anyc += 1
+    runs = ', '.join(f"{c} {'yes' if 'VIOLATION' in r else 'NO'}" for c, r in m['checks_run'].items())
+    orc = m.get('oracles_that_fired', {}).get(p) or next(iter(m.get('oracles_that_fired', {}).values()), [])
+    orc = '/'.join(sorted(set(orc)))[:90]
+    s = re.sub(r'\s+', ' ', m['summary'].replace('|', '/'))
+    if len(s) > 150: s = s[:147] + '...'
+    needs = re.sub(r'\s+', ' ', m.get('needs', '').replace('|', '/'))
+    if len(needs) > 110: needs = needs[:107] + '...'
+    rows.append(f"| {m['id']} | {p} | {s} | {needs} | {runs} | {orc} |")
+hdr = [f"{tot} changes written by independent sub-agents (each given only a property text and a scratch worktree), all confirmed by `tools/evalmut.sh` "
+       f"(patch applies, unedited suite passes, the author's demonstration passes on the clean tree and fails with the change). "
+       f"{own} are reported by the check of the property they were written to break, {anyc} by at least one check.", "",
+       "| id | breaks | change | needs | checks run (caught?) | oracle(s) that fired |", "|----|----|----|----|----|----|"]
+table = '\n'.join(hdr + rows)
+p = '/verif/DESIGN.md'
+s = open(p).read()
+a, b = '<!-- seeded-table-begin -->', '<!-- seeded-table-end -->'
+if a in s:
+    s = s[:s.index(a) + len(a)] + '\n' + table + '\n' + s[s.index(b):]
+    open(p, 'w').write(s)
+    print('DESIGN.md updated:', tot, own, anyc)
+else:
+    print(table)
